@@ -324,6 +324,8 @@ def run(chk, prog, rmax=12, nmax=8, dom=3):
                   'loop variable (or the condensed index of a pair whose first element is sliced)')
     R6 = chk.rule('S6.slice-processed', 'every normally returning path of a worker runs the loop over its slice (no early return that '
                   'skips the rows handed to it)')
+    R7 = chk.rule('S7.row-accumulators', 'inside the loop over a worker\'s slice every scalar that is accumulated (+=, -=, *=, ++) is '
+                  'initialised within the same iteration: nothing is summed across the rows of a slice')
     R5 = chk.rule('S5.condensed', 'a condensed distance vector is sized (n*n - n)/2 for the matrix it is computed from')
     RB = chk.rule('SW.worker-bounds', 'under the facts its dispatcher establishes (hi <= extent, field bindings, the dispatcher\'s own '
                   'contract) every subscript of the worker is in range')
@@ -421,6 +423,25 @@ def run(chk, prog, rmax=12, nmax=8, dom=3):
             chk.violation(Finding('S6.slice-processed', rel(wf.file), ent, 'early-return', wf.unit.where(offender),
                                   '%s can return at %s without iterating over its slice [%s, %s): the rows handed to that worker are '
                                   'processed by nobody' % (ent, wf.unit.where(offender), lo_f, hi_f)))
+        # S7: a scalar accumulated (+=, -=, *=) while a row is processed is (re)initialised inside that row's iteration
+        from .spline import loop_carried_scalars
+        carried = loop_carried_scalars(wf, wlp)
+        accum = set()
+        for x in walk(flow.for_parts(wlp)[3]):
+            if x.get('kind') == 'CompoundAssignOperator' and strip(kids(x)[0]).get('kind') == 'DeclRefExpr':
+                accum.add(strip(kids(x)[0])['referencedDecl'].get('name'))
+            elif x.get('kind') == 'UnaryOperator' and x.get('opcode') in ('++', '--') and strip(kids(x)[0]).get('kind') == 'DeclRefExpr':
+                accum.add(strip(kids(x)[0])['referencedDecl'].get('name'))
+        stale = sorted(v for v in carried if v in accum)
+        if not stale:
+            chk.instance(R7, '%s: every scalar accumulated while a row is processed is initialised inside that iteration (%d accumulator(s))' % (ent, len(accum)))
+        for v in stale:
+            node = carried[v]
+            chk.instance(R7, '%s: accumulator `%s` is carried from one row of the slice to the next' % (ent, v), 'refuted')
+            chk.violation(Finding('S7.row-accumulators', rel(wf.file), ent, 'carried:' + v, wf.unit.where(node),
+                                  '%s: `%s` is accumulated while a row is processed (read at %s before the iteration assigns it) but is only '
+                                  'initialised outside the loop over the slice: every row after the first of a worker\'s slice starts from the previous '
+                                  'rows\' sum, so the result depends on how the rows are split among the threads' % (ent, v, wf.unit.where(node))))
         # worker bounds under the dispatcher-established facts
         wpre = ck.contracts.get(ent, {}).get('pre', [])
         weng = ck.analyse(wf, wpre)
